@@ -51,6 +51,10 @@ type Program struct {
 	Messages []Message `json:"messages"`
 	// MoreFiles are further files to generate in the same invocation (same proto and Go package).
 	MoreFiles []ExtraFile `json:"more_files,omitempty"`
+	// Foreign are dependency files in OTHER proto / Go packages whose messages the program references
+	// (Field.Ref = "<proto package>.<Message>"). Generator simulator only: nothing here is compiled, and
+	// the oracle view does not descend into them.
+	Foreign []ForeignFile `json:"foreign,omitempty"`
 	// Extra dependency files whose messages are not referenced (C12 style noise; harmless here).
 	ExtraDeps []string `json:"extra_deps,omitempty"`
 	Config    Config   `json:"config"`
@@ -61,6 +65,17 @@ type ExtraFile struct {
 	File     string    `json:"file"`
 	Messages []Message `json:"messages"`
 }
+
+// ForeignFile is a dependency file of another package (not generated).
+type ForeignFile struct {
+	File         string    `json:"file"`
+	ProtoPackage string    `json:"proto_package"`
+	GoPackage    string    `json:"go_package"`
+	Messages     []Message `json:"messages"`
+}
+
+// IsForeignRef reports a reference into another proto package.
+func IsForeignRef(ref string) bool { return strings.Contains(ref, ".") }
 
 type Enum struct {
 	Name   string   `json:"name"`
@@ -235,6 +250,9 @@ func (p *Program) Validate() error {
 				return fmt.Errorf("%s: duplicate field %s/%d", m.Name, f.Name, f.Num)
 			}
 			nums[f.Num], names[f.Name] = true, true
+			if f.Kind == KMessage && IsForeignRef(f.Ref) {
+				continue
+			}
 			if (f.Kind == KMessage && p.Msg(f.Ref) == nil) || (f.Kind == KEnum && p.Enum(f.Ref) == nil) {
 				return fmt.Errorf("%s.%s: unknown ref %q", m.Name, f.Name, f.Ref)
 			}
@@ -261,7 +279,7 @@ func (p *Program) Validate() error {
 		}
 		state[n] = 1
 		for _, f := range p.Msg(n).Fields {
-			if f.Kind == KMessage {
+			if f.Kind == KMessage && !IsForeignRef(f.Ref) {
 				if err := visit(f.Ref); err != nil {
 					return err
 				}
@@ -289,7 +307,7 @@ func (p *Program) Reachable(root string) []string {
 		}
 		seen[n] = true
 		for _, f := range p.Msg(n).Fields {
-			if f.Kind == KMessage {
+			if f.Kind == KMessage && !IsForeignRef(f.Ref) {
 				walk(f.Ref)
 			}
 		}
